@@ -99,6 +99,9 @@ func (r *Runner) tags(oracle string) []string {
 	case "teardown":
 		add("C07", "C08", "C09")
 		add(r.FamTags...)
+	case "panic":
+		add("C08", "C09", "C01", "C11")
+		add(r.FamTags...)
 	case "registry":
 		add("C07")
 		add(r.FamTags...)
@@ -124,7 +127,7 @@ func (r *Runner) tags(oracle string) []string {
 		add("C16")
 	case "asset":
 		add("C16", "C05")
-	case "quad", "region":
+	case "quad", "region", "ground", "debug":
 		add("C20", "C03")
 	}
 	if e.K == "tick" {
@@ -300,6 +303,12 @@ func (r *Runner) Do(ev Ev) {
 	case "quad":
 		cx, cz := quadPos(ev.X)
 		wire = &dagazpb.DagazQuadSample{Type: dagazpb.MsgType_MSG_TYPE_DAGAZ_QUAD_SAMPLE, Timestamp: tsp, Samples: []*dagazpb.Quad{{Center: &dagazpb.Point{X: cx, Y: 0, Z: cz}, Extents: &dagazpb.Point{X: 0.5, Y: 0, Z: 0.5}}}}
+	case "ground":
+		// a vertical ray through the centre of sample X (or of an empty spot)
+		cx, cz := quadPos(ev.X)
+		wire = &dagazpb.DagazGetGroundPlaneRequest{Type: dagazpb.MsgType_MSG_TYPE_DAGAZ_GET_GROUND_PLANE_REQUEST, Timestamp: tsp, RequestId: x.rid, Ray: &dagazpb.Ray{From: &dagazpb.Point{X: cx, Y: 1, Z: cz}, To: &dagazpb.Point{X: cx, Y: -1, Z: cz}}}
+	case "debug":
+		wire = &dagazpb.DagazGetDebugInfoRequest{Type: dagazpb.MsgType_MSG_TYPE_DAGAZ_GET_DEBUG_INFO_REQUEST, Timestamp: tsp, RequestId: x.rid}
 	case "region":
 		wire = &dagazpb.DagazGetRegionRequest{Type: dagazpb.MsgType_MSG_TYPE_DAGAZ_GET_REGION_REQUEST, Timestamp: tsp, RequestId: x.rid, Min: &dagazpb.Point{X: -1000, Z: -1000}, Max: &dagazpb.Point{X: 1000, Z: 1000}}
 	default:
@@ -339,7 +348,7 @@ func (r *Runner) Do(ev Ev) {
 		c.Pending[fmt.Sprintf("c:%d:%d", tid, eid)] = &pendingUpd{Key: "c", T: tid, E: eid, Data: fmt.Sprintf("d%d", val), TS: x.ts, IsCmp: true, Seq: r.step}
 	case ev.K == "join":
 		r.doJoin(c, wire.(*hagallpb.ParticipantJoinRequest).SessionId, x)
-	case (ev.K == "action" || ev.K == "asset" || ev.K == "quad" || ev.K == "region") && c.Sess == nil:
+	case (ev.K == "action" || ev.K == "asset" || ev.K == "quad" || ev.K == "region" || ev.K == "ground" || ev.K == "debug") && c.Sess == nil:
 		// module request from a connection that is in no session: dropped
 	case sessionScoped[ev.K] && c.Sess == nil:
 		// never executed: an error answer, silence or a disconnect are all fine
@@ -1007,6 +1016,22 @@ func (r *Runner) doSession(c *MConn, ev Ev, x *stepCtx, eid, tid uint32, val int
 		if m.Mods.Dagaz {
 			x.add(ci, Exp{Msg: Msg{Type: 304, RID: x.rid, F: "quads=" + sortedJoin(append([]string{}, s.Quads...))}})
 		}
+	case "ground":
+		if m.Mods.Dagaz {
+			cx, cz := quadPos(ev.X)
+			want := fmt.Sprintf("(%v,%v,%v|%v,%v,%v)", cx, float32(0), cz, float32(0.5), float32(0), float32(0.5))
+			hit := "miss"
+			for _, q := range s.Quads {
+				if q == want {
+					hit = want
+				}
+			}
+			x.add(ci, Exp{Msg: Msg{Type: 302, RID: x.rid, F: "ground=" + hit}})
+		}
+	case "debug":
+		if m.Mods.Dagaz {
+			x.add(ci, Exp{Msg: Msg{Type: 306, RID: x.rid, F: fmt.Sprintf("planes=%d", len(s.Quads))}})
+		}
 	case "asset":
 		if !m.Mods.Odal {
 			return
@@ -1140,6 +1165,19 @@ func (r *Runner) Probe() {
 // Finish tears the world down and reports leftovers.
 func (r *Runner) Finish() {
 	left := r.W.Finish()
+	for _, p := range r.W.Panics {
+		site := "unknown"
+		for _, l := range strings.Split(p.Stack, "\n") {
+			if strings.Contains(l, "github.com/aukilabs/hagall") && !strings.HasPrefix(l, "\t") {
+				site = l[strings.LastIndex(l, "/")+1:]
+				if i := strings.LastIndex(site, "("); i > 0 {
+					site = site[:i]
+				}
+				break
+			}
+		}
+		r.fail("panic", "goroutine-panicked:"+p.Label+":"+site, "a server goroutine (%s) panicked: %s", p.Label, p.Value)
+	}
 	if len(left) > 0 {
 		var ds, ls []string
 		for _, l := range left {
